@@ -807,6 +807,8 @@ fn op_enum_map(c: &Value, ev: &mut Map<String, Value>) -> Result<(), String> {
     let ctx: Option<u16> = c["ctx"].as_u64().map(|x| x as u16);
     let surplus: Vec<u8> = if c["surplus"].is_null() { Vec::new() } else { json_bytes(&c["surplus"])? };
     let f6: u8 = c["f6"].as_u64().map(|x| x as u8).unwrap_or(1);
+    let after: Vec<u8> = if c["after"].is_null() { Vec::new() } else { json_bytes(&c["after"])? };
+    let n_after = c["n_after"].as_u64().unwrap_or(0) as usize;
     let o = guarded(|| {
         let mut acc = Vec::new();
         let mut tested = 0u64;
@@ -861,6 +863,7 @@ fn op_enum_map(c: &Value, ev: &mut Map<String, Value>) -> Result<(), String> {
                         Some(mt) => {
                             let mut body = if mt == 0 { Vec::new() } else { one_avp_record(0, &mt.to_be_bytes()) };
                             body.extend_from_slice(&rec);
+                            body.extend_from_slice(&after);          // neighbours: valid AVPs that typically accompany it
                             let n = 12 + body.len();
                             let mut w = vec![0x13u8, 0x20, (n >> 8) as u8, n as u8, 0, 1, 0, 2, 0, 3, 0, 4];
                             w.extend_from_slice(&body);
@@ -868,7 +871,11 @@ fn op_enum_map(c: &Value, ev: &mut Map<String, Value>) -> Result<(), String> {
                             match Message::try_read_validate(&mut r, opts_from(&json!([true, true, true]))) {
                                 Ok(Message::Control(m)) => {
                                     let skip = if mt == 0 { 0 } else { 1 };
-                                    let rest: Vec<Result<AVP, DecodeError>> = m.avps.into_iter().skip(skip).map(Ok).collect();
+                                    let expect = 1 + n_after;
+                                    let all: Vec<AVP> = m.avps.into_iter().skip(skip).collect();
+                                    // (with neighbours: all of them must still be there; the swept AVP is the first)
+                                    let rest: Vec<Result<AVP, DecodeError>> =
+                                        if all.len() == expect { all.into_iter().take(1).map(Ok).collect() } else { Vec::new() };
                                     if rest.is_empty() {
                                         // accepted, but the AVP carrying the code is gone
                                         vec![Err(DecodeError::EmptyHiddenAVP), Err(DecodeError::EmptyHiddenAVP)]
